@@ -581,4 +581,36 @@ func c03ProcessorSelection(c *an.Ctx) {
 		})
 	}
 	c.MinCount("R8", "header-value conditions selecting a body processor", n, 2)
+	// cookie names and values are exposed byte-exact: the cookie parser strips optional whitespace (SP / HTAB,
+	// textproto.TrimString) and nothing else.  strings.TrimSpace and friends also remove \v \f \r \n, NBSP, NEL and
+	// the Unicode spaces, i.e. bytes that belong to the name or value (or make up the whole name).
+	if pc := c.Fn("R8", "internal/cookies.ParseCookies"); pc != nil {
+		nTrim, bad := 0, ""
+		an.Instrs(pc, func(in ssa.Instruction) {
+			cc := an.CallOf(in)
+			if cc == nil || cc.StaticCallee() == nil || cc.StaticCallee().Pkg == nil {
+				return
+			}
+			pkg, name := cc.StaticCallee().Pkg.Pkg.Path(), cc.StaticCallee().Name()
+			if !strings.HasPrefix(name, "Trim") {
+				return
+			}
+			nTrim++
+			switch {
+			case pkg == "net/textproto" && name == "TrimString":
+			case pkg == "strings" && (name == "Trim" || name == "TrimLeft" || name == "TrimRight" || name == "TrimPrefix" || name == "TrimSuffix"):
+				// explicit cut set / affix: must be a constant made of SP and HTAB only for the cut-set forms
+				if name == "Trim" || name == "TrimLeft" || name == "TrimRight" {
+					cs := an.Expr(cc.Args[1])
+					if strings.Trim(strings.Trim(cs, `"`), " \\t") != "" && cs != `" \t"` && cs != `"\t "` && cs != `" "` {
+						bad = pkg + "." + name + "(_, " + cs + ")"
+					}
+				}
+			default:
+				bad = pkg + "." + name
+			}
+		})
+		c.Check(bad == "" && nTrim >= 1, "R8", "ParseCookies strips optional whitespace (SP/HTAB) only", pc.Pos(), fmt.Sprintf("%d trimming calls, all textproto.TrimString or explicit SP/HTAB cut sets", nTrim),
+			"the cookie parser trims with "+bad+": besides SP and HTAB this removes vertical tab, form feed, CR, LF and Unicode spaces (NBSP, NEL ...) from the ends of names and values, so cookies are exposed under another name or with shortened values, and a name consisting of such a character is dropped altogether")
+	}
 }
